@@ -13,11 +13,23 @@ MANIFEST = dict(
          "Iter stage is a pull transducer over a source with a pull counter: (semantics) for every stage "
          "list of any length, every finite source and all user functions, draining the demand-driven chain "
          "yields exactly the composition of the list functions map/filter/takeWhile/dropWhile/slice/chunked/"
-         "windowed/split/unique/join in chaining order, with SKIP/STOP/sentinel honoured by the base stage; "
-         "(laziness) for every source, finite or infinite, every source item pulled while k outputs are "
-         "requested lies in a prefix that does not yet determine k outputs (so pulls <= need(k), plus the "
+         "windowed/split/unique/join in chaining order, with SKIP/STOP/sentinel honoured by the base stage — the "
+         "sentinel as an OBJECT: values carry identity, and `is` (the sentinel test), the `==` operator (split's "
+         "separator test) and equality inside sets (unique, separator sets) are three relations of the model, over "
+         "ints, bools, floats, strings, tuples, lists and instances whose __eq__ says yes to everything / raises / "
+         "returns a non-bool; (laziness) for every source, finite or infinite, every source item pulled while k "
+         "outputs are requested lies in a prefix that does not yet determine k outputs (so pulls <= need(k), plus the "
          "size-1 items windowed_iter takes while glomit runs), runs depend only on the prefix pulled, "
-         "first()/all() terminate exactly when a finite prefix determines their answer; (builders) on a heap "
+         "first()/all() terminate exactly when a finite prefix determines their answer; in closed form: per-stage "
+         "lookahead bounds (subspec without SKIP, map, takewhile: n; chunked: n*size; windowed: n+size-1; slice: "
+         "start+(n-1)*step+1) and their composition bound take-k on every source; (streams) stage states live on a "
+         "heap, every glomit allocates fresh cells and writes no existing one, and for any number of live streams "
+         "(same spec object, derived specs, any specs) under ANY schedule of open/next/all/first events each stream's "
+         "outputs and final state equal those of its solo run (induction over the schedule), the heap model passes the "
+         "stream checker; counter-example theorem for stage state kept per spec; (boltons) unique_iter, chunked_iter, "
+         "split_iter, windowed_iter (tee + zip) transcribed from boltons' source as generators: on every finite upstream "
+         "(ending or raising) each yields the trace of its transducer, hence the list function, and moves the upstream as "
+         "the transducer does; (builders) on a heap "
          "of spec objects _add_op and Invoke.constants/specs/star allocate and never write an existing object, "
          "for every history of builder calls; (source) the effect of a run on the caller's source object is "
          "exactly the pulled prefix: a pipeline started at position p is the pipeline over the suffix, the "
@@ -26,21 +38,28 @@ MANIFEST = dict(
          "yields the composition over the remaining items, a suspended iterator resumed after others read from "
          "the source goes on as if their items had never been there. Per-run facts obligation by `decide` on tables regenerated from "
          "/repo (no builder method writes self, _add_op builds a new list and forwards the sentinel, _iterate's "
-         "SKIP/STOP branches, _iterate uses the target's iterator as the iterable of its for loop and for nothing "
-         "else, reversed-stack fold, callback table); model tied to the code by differential "
-         "execution (items, end/exception class, number of source items pulled, what next() finds on the source "
+         "SKIP/STOP branches are identity tests, _iterate uses the target's iterator as the iterable of its for loop and for nothing "
+         "else, reversed-stack fold, every callback is a lambda that calls its iterator function); model tied to the code by differential "
+         "execution (items with their identities, end/exception class, number of source items pulled, what next() finds on the source "
          "object afterwards and whether close() was called on it, several pipelines and suspended iterators over "
-         "one source object, repr/behaviour of a re-used prefix spec) through the compiled Lean driver.",
-    note="partial because itertools' islice/takewhile/dropwhile/chain and boltons' chunked_iter/windowed_iter/"
-         "split_iter/unique_iter/first are external code: their pull behaviour is modelled from documentation "
-         "and observed behaviour (islice mirrors CPython's cnt/next counters) and validated only by the "
-         "correspondence; Python's generator suspension is modelled by recursion with fuel. Trusted: Lean "
+         "one source object, several LIVE streams of one spec / derived specs pulled in interleaved order each against its solo "
+         "reference, the boltons generator models against the installed boltons called directly, repr/behaviour of a re-used "
+         "prefix spec) through the compiled Lean driver.",
+    note="partial because itertools' islice/takewhile/dropwhile/chain/tee/zip are C code modelled from documentation "
+         "and observed behaviour (islice mirrors CPython's cnt/next counters; tee as a shared buffer with one read index per tee), "
+         "validated only by the correspondence; boltons' four helpers are modelled from their source and proved equal to the "
+         "transducers on finite upstreams (the model itself is tied to the installed boltons by differential execution); "
+         "Python's generator suspension is modelled by recursion with fuel; a resumed take over a source others read in between "
+         "is proved piecewise (c17_resume + c17_model_checks_take), the whole step checker only for fresh steps. Trusted: Lean "
          "kernel + {propext, Classical.choice, Quot.sound}; extractor; harness/driver. Domain: stream elements "
-         "are ints/None/lists/tuples (no SKIP/STOP objects as data, no bools/floats), chunked/windowed size "
-         ">= 1, islice step >= 1, split maxsplit != 0, sentinel a small int or None (identity = equality).",
+         "are None/ints/bools/integral floats/strings/lists/tuples/instances of four user classes, with object identity "
+         "(no SKIP/STOP objects as data, no NaN), chunked/windowed size "
+         ">= 1, islice step >= 1, split maxsplit != 0, a single split separator is an atom; identity of values written without an "
+         "identity follows CPython (None, True/False, ints in [-5,256], the empty tuple and strings of <= 1 character are one object per value).",
     technique='Lean 4 refinement proof (demand-driven transducer chain = composition of list functions; '
-              'prefix-determinacy invariant for laziness; heap frame condition for builders) + facts obligation '
-              'by decide + differential correspondence with pull counting',
+              'prefix-determinacy invariant for laziness + closed-form lookahead bounds; heap frame conditions for builders and '
+              'for per-stream stage state with induction over schedules; code-shaped generator models of boltons refined to the '
+              'transducers) + facts obligation by decide + differential correspondence with pull counting and object identity',
     ref='DESIGN.md §3 C17')
 RULE = ('type-directed: the element type (int / list / tuple) is tracked through the chain so that most '
         'stage functions apply (inc on ints, len on chunks, flatten on lists …); a one-edit mutation stream '
@@ -62,19 +81,40 @@ RULE = ('type-directed: the element type (int / list / tuple) is tracked through
         'sweep: every builder method in every call form (each optional argument absent / present: chunked fill, '
         'split sep scalar / set / callable and maxsplit, slice arities with None, limit 0 / beyond the length, '
         'default keys of filter / takewhile / dropwhile / unique, first() / first(default=) / first(key, default=)) '
-        'x sources shorter than / equal to / longer than the sizes, with consecutive separators and colliding keys; '
-        'distinct = distinct (spec, source, k, mode)')
-TRUSTED = ["itertools (islice, takewhile, dropwhile, chain, map, filter) and boltons.iterutils (chunked_iter, "
-           "windowed_iter, split_iter, unique_iter, first): modelled from documentation/observed behaviour, "
+        'x sources shorter than / equal to / longer than the sizes, with consecutive separators and colliding keys. '
+        'Identity: a case value {"ref": n, …} is ONE Python object wherever it occurs (source, sentinel, outputs are '
+        'encoded back with their identity); values without ref are built afresh per occurrence (float(), str.join, '
+        'int(str) outside the small-int cache). Twin cases: 19 sentinel kinds (small / big int, float, bool, string, tuple, '
+        'list, empty tuple, one-character string, None, default STOP, instances with identity / permissive / raising __eq__) '
+        'x items EQUAL to the sentinel but not identical with it (1 / 1.0 / True, an equal string or tuple built at run time, '
+        'another object, objects equal to everything, objects whose == raises or has no truth value) planted at 1-3 random positions '
+        'before or instead of the sentinel object itself, also as results of the base subspec; exhaustive sweep sentinel kind x twin x '
+        'position 0..3, bare and chained; every catalogue callable on every value kind as map / filter / unique key / split '
+        'separator / subspec. Streams cases: one base spec object and 0-2 specs derived from it (or from each other), 2-4 streams '
+        'each over its own source, events open / next / all() / first() in a random interleaving; exhaustive: every stateful stage '
+        '(unique, chunked +-fill, windowed, slice, limit, takewhile, dropwhile, split +-maxsplit, filter, map) x (same spec | spec + '
+        'derived | two derived) x ALL interleavings of 2+2 (quick) / 3+3, 2+2+2, 1+4 (thorough) pulls, streams opened lazily or up front; '
+        'after every event the stream is checked against its solo reference. Boltons cases: chunked_iter / windowed_iter / split_iter / '
+        'unique_iter of the installed boltons called directly on an instrumented iterator vs the code-shaped Lean generators '
+        '(items, end, pulls per next, pulls by the call itself). distinct = distinct (spec, source, k, mode / schedule)')
+TRUSTED = ["itertools (islice, takewhile, dropwhile, chain, map, filter, tee, zip): modelled from documentation/observed behaviour, "
            "validated only by the correspondence",
-           "CPython generator suspension (modelled by structural recursion with fuel)"]
-ASSUMPTIONS = ['stream elements are ints, None, lists, tuples; SKIP/STOP only as results of the base subspec',
-               'chunked/windowed size >= 1, islice step >= 1, maxsplit != 0',
-               'sentinel is None or an int in CPython\'s small-int range (so `is` coincides with ==)',
+           "boltons.iterutils chunked_iter / windowed_iter / split_iter / unique_iter: modelled from their source (Model/C17Boltons.lean), "
+           "proved equal to the transducers; the transcription itself is validated by differential execution against the installed boltons; "
+           "boltons.iterutils.first: next(filter(key, it), default), from its source",
+           "CPython generator suspension (modelled by structural recursion with fuel)",
+           "CPython object identity for values without an explicit identity (small-int cache, interned one-character strings, empty tuple)"]
+ASSUMPTIONS = ['stream elements are None, ints, bools, integral floats, strings, lists, tuples, instances of four harness classes '
+               '(plain / __eq__ always True / __eq__ raises / __eq__ returns an object without a truth value); '
+               'SKIP/STOP only as results of the base subspec; no NaN',
+               'chunked/windowed size >= 1, islice step >= 1, maxsplit != 0; a single split separator is None, a number or a string',
+               'no hash collision between an identity-hashed instance and another key',
                'infinite sources are observed through a pull budget of %d items' % 40,
                'split(maxsplit=0) yields the iterator object itself: outside the value domain, not generated',
                'the source after a run is observed on targets that are their own iterator; a source that raises '
-               'at its end is not asked beyond its last item']
+               'at its end is not asked beyond its last item',
+               'in streams cases every stream has its own source object (a source shared by suspended iterators is the reuse class); '
+               'a stream that has ended is not asked again']
 
 BUDGET = 40
 
@@ -111,6 +151,8 @@ def catalogue():
         'none': lambda x: None,
         'zero': lambda x: 0,
         'one': lambda x: 1,
+        'tofloat': lambda x: float(x) if type(x) is int else x,      # a subspec result that EQUALS an int
+        'tobool': lambda x: bool(x) if type(x) is int else x,
         'skip_odd': lambda x: SKIP if (type(x) is int and x % 2) else x,
         'stop_ge4': lambda x: STOP if (type(x) is int and x >= 4) else x,
         'skip_stop': lambda x: ((STOP if x >= 5 else SKIP if x % 3 == 1 else x) if type(x) is int else x),
@@ -125,28 +167,117 @@ KW_SPECS = {
 # ----------------------------------------------------------------------------- value codec
 
 
-def enc(v):
+# Values carry *identity*: {'ref': n, 'v': V} is THE object number n of the case — every
+# occurrence (in the source, as the sentinel, in an output) is the same Python object; a value
+# written without 'ref' is built afresh at every occurrence (floats by float(), strings by
+# ''.join, ints outside CPython's small-int cache by int(str), tuples / lists element-wise),
+# so that it is EQUAL to its other occurrences but not identical with them.
+
+class Plain(object):
+    """object(): equal to itself only"""
+
+
+class Wild(object):
+    """equal to everything (like unittest.mock.ANY)"""
+    def __eq__(self, other):
+        return True
+
+    def __ne__(self, other):
+        return False
+
+    __hash__ = object.__hash__
+
+
+class EqRaises(object):
+    """comparing it raises"""
+    def __eq__(self, other):
+        raise ValueError('this object cannot be compared')
+
+    __ne__ = __eq__
+    __hash__ = object.__hash__
+
+
+class NoTruth(object):
+    def __bool__(self):
+        raise ValueError('the truth value of a comparison result is ambiguous')
+
+
+class EqOdd(object):
+    """array-like: == gives an object that has no truth value"""
+    def __eq__(self, other):
+        return NoTruth()
+
+    __ne__ = __eq__
+    __hash__ = object.__hash__
+
+
+CLASSES = [Plain, Wild, EqRaises, EqOdd]
+_MEMO = {}       # ref number -> object            (one case)
+_REG = {}        # id(object) -> ref number
+
+
+def begin_case():
+    _MEMO.clear()
+    _REG.clear()
+
+
+def _enc_plain(v):
     if v is None:
         return None
+    if type(v) is bool:
+        return {'b': v}
     if type(v) is int:
         return {'i': v}
+    if type(v) is float and v == v and abs(v) < 1e15 and v == int(v):
+        return {'f': int(v)}
+    if type(v) is str:
+        return {'s': v}
     if type(v) is list:
         return {'l': [enc(x) for x in v]}
     if type(v) is tuple:
         return {'t': [enc(x) for x in v]}
+    if type(v) in CLASSES:
+        return {'o': CLASSES.index(type(v))}
     return {'x': repr(v)[:80]}
 
 
-def dec(j):
+def enc(v):
+    n = _REG.get(id(v))
+    if n is not None and _MEMO.get(n) is v:
+        return {'ref': n, 'v': _enc_plain(v)}
+    return _enc_plain(v)
+
+
+def _dec_fresh(j):
     if j is None:
         return None
     if 'i' in j:
-        return j['i']
+        v = j['i']
+        return v if -5 <= v <= 256 else int(str(v))
+    if 'b' in j:
+        return bool(j['b'])
+    if 'f' in j:
+        return float(j['f'])
+    if 's' in j:
+        return ''.join(list(j['s']))
     if 'l' in j:
         return [dec(x) for x in j['l']]
     if 't' in j:
         return tuple(dec(x) for x in j['t'])
+    if 'o' in j:
+        return CLASSES[j['o']]()
     raise ValueError(j)
+
+
+def dec(j):
+    if j is not None and 'ref' in j:
+        n = j['ref']
+        if n not in _MEMO:
+            o = _dec_fresh(j['v'])
+            _MEMO[n] = o
+            _REG[id(o)] = n
+        return _MEMO[n]
+    return _dec_fresh(j)
 
 
 def exc_name(e):
@@ -359,10 +490,15 @@ def run_first(spec, src, mode, cat, kind='gen', r=R_DEFAULT):
 
 
 def run_impl(case):
+    begin_case()
     if case.get('kind') == 'invoke':
         return run_invoke(case)
     if case.get('kind') == 'reuse':
         return run_reuse(case)
+    if case.get('kind') == 'streams':
+        return run_streams(case)
+    if case.get('kind') == 'boltons':
+        return run_boltons(case)
     cat = catalogue()
     src, k = case['src'], case['k']
     sk, r = case.get('srckind', 'gen'), case.get('R', R_DEFAULT)
@@ -463,6 +599,134 @@ def run_reuse(case):
     out = dict(case)
     out['impl'] = {'steps': obs, 'src_after': probe(source, st, src, r)}
     return out
+
+
+# ----------------------------------------------------------------------------- several live streams
+
+def run_streams(case):
+    """several iterators that are alive at the same time — made from ONE base spec object and from
+    specs derived from it — each over its own source object, opened and pulled in the order the
+    schedule says.  Every event records what it gave and the number of items handed out by the
+    stream's own source so far."""
+    import glom
+    cat = catalogue()
+    specs = [chain(base_iter(case['base'], cat), case['base']['ops'], cat)]
+    for d in case['derived']:
+        specs.append(chain(specs[d['from']], d['ops'], cat))
+    sts, sources, its, dead = [], [], {}, set()
+    for sj in case['streams']:
+        st = SrcState()
+        sts.append(st)
+        sources.append(make_source(sj['src'], st, sj.get('srckind', 'gen')))
+    obs = []
+    for ev, i in case['events']:
+        sj, st = case['streams'][i], sts[i]
+        if ev == 'open':
+            try:
+                its[i] = glom.glom(sources[i], specs[sj['spec']])
+                obs.append({'open': 'ok', 'pulls': st.pulled})
+            except Exception as e:
+                dead.add(i)
+                obs.append({'open': {'raised': exc_name(e)}, 'pulls': st.pulled})
+        elif ev == 'next':
+            if i in dead or i not in its:
+                obs.append({'dead': True})
+                continue
+            try:
+                obs.append({'item': enc(next(its[i])), 'pulls': st.pulled})
+            except StopIteration:
+                dead.add(i)
+                obs.append({'end': 'exhausted', 'pulls': st.pulled})
+            except Exception as e:
+                dead.add(i)
+                obs.append({'end': {'raised': exc_name(e)}, 'pulls': st.pulled})
+        else:
+            spec, mode = specs[sj['spec']], sj['mode']
+            if mode == 'all':
+                try:
+                    res = glom.glom(sources[i], spec.all())
+                except Exception as e:
+                    obs.append({'fin': {'raised': exc_name(e)}, 'pulls': st.pulled})
+                else:
+                    obs.append({'items': [enc(x) for x in res], 'fin': 'exhausted', 'pulls': st.pulled})
+            else:
+                try:
+                    fs, dflt = first_spec(spec, mode, cat)
+                    res = glom.glom(sources[i], fs)
+                except Exception as e:
+                    obs.append({'first': {'raised': exc_name(e)}, 'pulls': st.pulled})
+                else:
+                    obs.append({'first': 'default' if res is dflt else {'found': enc(res)}, 'pulls': st.pulled})
+    out = dict(case)
+    out['impl'] = {'events': obs}
+    return out
+
+
+# ----------------------------------------------------------------------------- boltons' helpers, called directly
+
+def run_boltons(case):
+    """the installed boltons.iterutils helper on an instrumented iterator (no glom involved): ties the
+    code-shaped Lean models of chunked_iter / windowed_iter / split_iter / unique_iter to the code"""
+    from boltons import iterutils
+    cat = catalogue()
+    op, st = case['op'], SrcState()
+    source = make_source(case['src'], st, case.get('srckind', 'gen'))
+    out = dict(case)
+    try:
+        if op['op'] == 'chunked':
+            kw = {'fill': dec(op['fill']['v'])} if 'fill' in op else {}
+            it = iterutils.chunked_iter(source, op['size'], **kw)
+        elif op['op'] == 'windowed':
+            it = iterutils.windowed_iter(source, op['size'])
+        elif op['op'] == 'unique':
+            it = iterutils.unique_iter(source, key=None if op.get('f') in (None, 'T') else cat[op['f']])
+        else:
+            kw = {}
+            sep = op.get('sep')
+            if sep is not None:
+                kw['sep'] = dec(sep['scalar']) if 'scalar' in sep else [dec(x) for x in sep['set']] if 'set' in sep \
+                    else cat[sep['fn']]
+            if op.get('maxsplit') is not None:
+                kw['maxsplit'] = op['maxsplit']
+            it = iterutils.split_iter(source, **kw)
+    except Exception as e:
+        out['impl'] = {'init': {'raised': exc_name(e)}, 'init_pulls': st.pulled, 'events': []}
+        return out
+    obs, init_pulls = [], st.pulled
+    for _ in range(case['k']):
+        try:
+            obs.append({'item': enc(next(it)), 'pulls': st.pulled})
+        except StopIteration:
+            obs.append({'end': 'exhausted', 'pulls': st.pulled})
+            break
+        except Exception as e:
+            obs.append({'end': {'raised': exc_name(e)}, 'pulls': st.pulled})
+            break
+    out['impl'] = {'init': 'ok', 'init_pulls': init_pulls, 'events': obs}
+    return out
+
+
+def gen_boltons_case(rng):
+    kind = rng.choice(['chunked', 'windowed', 'split', 'unique'])
+    while True:
+        op = gen_op(rng, 'int', rng.random() < 0.15)[0]
+        if op['op'] == kind and op.get('f') != 'head' and (op.get('sep') or {}).get('fn') not in ('T', 'head'):
+            break
+    src = gen_source(rng, 'int', rng.random() < 0.2)
+    if rng.random() < 0.25:
+        for _ in range(rng.randint(1, 3)):
+            src['fin'].insert(rng.randint(0, len(src['fin'])), rng.choice(VALUE_KINDS))
+    return {'kind': 'boltons', 'op': op, 'src': src, 'k': rng.randint(0, 8), 'srckind': gen_srckind(rng)}
+
+
+def boltons_sweep(tier):
+    for op in param_ops():
+        if op['op'] not in ('chunked', 'windowed', 'split', 'unique') or op.get('f') == 'T':
+            continue
+        for xs in PARAM_SOURCES:
+            for tail in (None, 'ValueError') if tier != 'quick' else (None,):
+                yield {'kind': 'boltons', 'op': op, 'src': {'fin': [jv(x) for x in xs], 'tail': tail}, 'k': 9,
+                       'srckind': 'gen'}
 
 
 # ----------------------------------------------------------------------------- Invoke
@@ -668,12 +932,301 @@ def gen_iter_case(rng, maxlen, focus):
     case['src'] = gen_source(rng, ty0, infinite)
     if case['sentinel'] is not None and rng.random() < 0.6:
         plant(rng, case['src'], dec(case['sentinel']['v']))
+        if rng.random() < 0.3:
+            plant_twin(rng, case['src'], dec(case['sentinel']['v']))
     case['k'] = rng.randint(0, 6)
     m = rng.random()
     case['mode'] = 'take' if m < 0.6 else 'all' if m < 0.8 else gen_first_mode(rng)
     case['srckind'] = gen_srckind(rng)
     case['R'] = rng.choice(R_CHOICES)
     return case
+
+
+# ---- values EQUAL to, but not identical with, the sentinel (or with STOP) --------------------
+
+def _I(i):
+    return {'i': i}
+
+
+def _F(i):
+    return {'f': i}
+
+
+def _B(b):
+    return {'b': b}
+
+
+def _S(x):
+    return {'s': x}
+
+
+def _T(*xs):
+    return {'t': list(xs)}
+
+
+def _L(*xs):
+    return {'l': list(xs)}
+
+
+def _R(n, v):
+    return {'ref': n, 'v': v}
+
+
+WILD, RAISES, ODD = _R(91, {'o': 1}), _R(92, {'o': 2}), _R(93, {'o': 3})
+EXOTIC = [WILD, RAISES, ODD]          # equal to everything / == raises / == has no truth value
+NOIDENT = 'no-identical-item'
+DEFAULT = 'default-sentinel'
+# (sentinel, an item that IS the sentinel object, items that are equal to it without being it)
+TWIN_SETS = [
+    (_I(1), _I(1), [_F(1), _B(True), _R(7, _F(1))]),
+    (_I(0), _I(0), [_F(0), _B(False)]),
+    (_I(2), _I(2), [_F(2)]),
+    (_I(1000), NOIDENT, [_I(1000), _F(1000)]),                 # not in the small-int cache: two objects
+    (_R(1, _F(1)), _R(1, _F(1)), [_F(1), _I(1), _B(True), _R(2, _F(1))]),
+    (_F(2), NOIDENT, [_F(2), _I(2)]),
+    (_B(True), _B(True), [_I(1), _F(1)]),
+    (_B(False), _B(False), [_I(0), _F(0)]),
+    (_R(1, _S('ab')), _R(1, _S('ab')), [_S('ab'), _R(2, _S('ab'))]),
+    (_S('ab'), NOIDENT, [_S('ab')]),
+    (_S('a'), _S('a'), []),                                    # one-character strings: one object per value
+    (_R(1, _T(_I(1), _I(2))), _R(1, _T(_I(1), _I(2))), [_T(_I(1), _I(2)), _R(2, _T(_I(1), _I(2)))]),
+    (_T(), _T(), []),                                          # the empty tuple is one object
+    (_R(1, _L(_I(1))), _R(1, _L(_I(1))), [_L(_I(1)), _R(2, _L(_I(1)))]),
+    (None, None, []),                                          # sentinel=None
+    (DEFAULT, NOIDENT, []),                                    # no sentinel: STOP
+    (_R(1, {'o': 0}), _R(1, {'o': 0}), [_R(2, {'o': 0})]),
+    (_R(1, {'o': 1}), _R(1, {'o': 1}), [_I(2), _S('ab'), None, _R(2, {'o': 0})]),   # everything equals this sentinel
+    (_R(1, {'o': 2}), _R(1, {'o': 2}), [_I(2)]),
+]
+AGNOSTIC_OPS = [
+    {'op': 'map', 'f': 'T'}, {'op': 'map', 'f': 'wrap'}, {'op': 'map', 'f': 'pair'}, {'op': 'filter'},
+    {'op': 'filter', 'f': 'one'}, {'op': 'chunked', 'size': 2}, {'op': 'windowed', 'size': 2},
+    {'op': 'slice', 'a': [1, None]}, {'op': 'limit', 'n': 4}, {'op': 'unique'}, {'op': 'unique', 'f': 'T'},
+    {'op': 'split'}, {'op': 'split', 'sep': {'scalar': {'i': 1}}}, {'op': 'split', 'sep': {'scalar': {'s': 'ab'}}},
+    {'op': 'split', 'sep': {'set': [{'i': 1}, None]}}, {'op': 'takewhile', 'f': 'one'}, {'op': 'dropwhile', 'f': 'zero'},
+    {'op': 'map', 'f': 'bad3'}, {'op': 'map', 'f': 'inc'}, {'op': 'map', 'f': 'dbl'}, {'op': 'map', 'f': 'lt3'},
+    {'op': 'map', 'f': 'mod2'}, {'op': 'map', 'f': 'length'}, {'op': 'map', 'f': 'head'},
+    {'op': 'split', 'sep': {'fn': 'zero'}},
+]
+
+
+def twin_sentinel(tw):
+    return None if tw[0] == DEFAULT else {'v': tw[0]}
+
+
+def gen_twin_case(rng, maxlen):
+    """a stream in which values EQUAL to the sentinel (or equal to everything) come before —
+    or instead of — the sentinel object itself; default and custom sentinels; the item may
+    also be the result of the subspec"""
+    tw = rng.choice(TWIN_SETS)
+    twins = tw[2] + EXOTIC
+    items = [jv(rng.choice([2, 3, 4, 5, 6, 7, 1, 0])) for _ in range(rng.randint(0, 5))]
+    for _ in range(rng.choice([1, 1, 2, 3])):
+        items.insert(rng.randint(0, len(items)), rng.choice(twins))
+    if tw[1] != NOIDENT and rng.random() < 0.6:
+        items.insert(rng.randint(0, len(items)), tw[1])
+    case = {'kind': 'iter', 'sub': 'T', 'sentinel': twin_sentinel(tw), 'twin': True}
+    r = rng.random()
+    if r < 0.12:
+        case['sub'] = rng.choice(['tofloat', 'tobool'])         # the subspec's result equals the sentinel
+    elif r < 0.2:
+        case['sub'] = rng.choice(BASE_SUBS + ['inc', 'T'])
+    ops = []
+    for _ in range(rng.randint(0, maxlen - 1)):
+        ops.append(rng.choice(AGNOSTIC_OPS) if rng.random() < 0.8 else gen_op(rng, 'int', False)[0])
+    cut = rng.randint(0, len(ops))
+    case['p'], case['e2'] = ops[:cut], ops[cut:]
+    case['e1'] = [rng.choice(AGNOSTIC_OPS)] if rng.random() < 0.3 else []
+    case['src'] = {'fin': items, 'tail': None}
+    case['k'] = rng.randint(0, 7)
+    m = rng.random()
+    case['mode'] = 'take' if m < 0.55 else 'all' if m < 0.85 else gen_first_mode(rng)
+    case['srckind'] = gen_srckind(rng)
+    case['R'] = rng.choice(R_CHOICES)
+    return case
+
+
+def twin_sweep(tier):
+    """every sentinel kind x every equal-but-not-identical item x every position of a short stream,
+    the sentinel object itself last; bare and with one chained stage (the sentinel is forwarded)"""
+    n = 0
+    for tw in TWIN_SETS:
+        for t in tw[2] + EXOTIC:
+            for pos in range(4):
+                items = [jv(5), jv(6), jv(7)]
+                items.insert(pos, t)
+                if tw[1] != NOIDENT:
+                    items.append(tw[1])
+                    items.append(jv(9))
+                for ops in ([], [{'op': 'map', 'f': 'T'}]) if tier != 'quick' else ([[], [{'op': 'map', 'f': 'T'}]][n % 2],):
+                    n += 1
+                    yield {'kind': 'iter', 'sub': 'T', 'sentinel': twin_sentinel(tw), 'twin': True, 'p': ops, 'e1': [],
+                           'e2': [], 'src': {'fin': items, 'tail': None}, 'k': 9,
+                           'mode': 'all' if n % 2 else 'take', 'srckind': SRCKINDS[n % 3], 'R': 2}
+
+
+VALUE_KINDS = [None, _I(0), _I(3), _I(-4), _I(1000), _B(True), _B(False), _F(0), _F(3), _F(-1), _S(''), _S('a'), _S('ab'),
+               _T(), _T(_I(1), _I(2)), _L(), _L(_I(3)), _R(1, _F(3)), _R(2, _S('ab')), _R(3, _T(_I(3))), _R(4, _L(_I(1), _I(1))),
+               _R(5, {'o': 0}), WILD, RAISES, ODD]
+
+
+def catalogue_sweep(tier):
+    """every catalogue callable on every kind of value (as map / filter / unique key / split separator /
+    base subspec), and the three equalities on a stream of numeric twins"""
+    n = 0
+    fns = ALL_FNS + ['tofloat', 'tobool']
+    for f in fns:
+        for v in VALUE_KINDS:
+            for op in ({'op': 'map', 'f': f}, {'op': 'filter', 'f': f}, {'op': 'unique', 'f': f},
+                       {'op': 'split', 'sep': {'fn': f}}, None):
+                n += 1
+                if tier == 'quick' and op is not None and op['op'] != 'map' and n % 4:
+                    continue
+                if op is not None and op['op'] == 'split' and f in ('T', 'head'):
+                    continue         # T-expressions are callable objects, not separator predicates
+                yield {'kind': 'iter', 'sub': f if op is None else 'T', 'sentinel': None, 'twin': True, 'p': [], 'e1': [],
+                       'e2': [] if op is None else [op], 'src': {'fin': [v, jv(1)], 'tail': None}, 'k': 3,
+                       'mode': 'take', 'srckind': 'gen', 'R': 1}
+    mixed = [_I(1), _F(1), _B(True), _I(0), _F(0), _B(False), _S('ab'), _S('ab'), _T(_I(1)), _T(_F(1)), _T(_B(True)),
+             _R(1, _F(1)), _R(1, _F(1)), WILD, WILD, _R(5, {'o': 0}), _R(6, {'o': 0}), None]
+    for op in ({'op': 'unique'}, {'op': 'unique', 'f': 'pair'}, {'op': 'split', 'sep': {'scalar': _I(1)}},
+               {'op': 'split', 'sep': {'scalar': _F(0)}}, {'op': 'split', 'sep': {'scalar': _B(True)}},
+               {'op': 'split', 'sep': {'scalar': _S('ab')}}, {'op': 'split'}, {'op': 'split', 'sep': {'set': [_F(1), _S('ab')]}},
+               {'op': 'split', 'sep': {'set': [_T(_I(1)), WILD]}}, {'op': 'filter'}, {'op': 'takewhile'},
+               {'op': 'dropwhile'}, {'op': 'flatten'}, {'op': 'map', 'f': 'bad3'}):
+        for rot in range(0, len(mixed), 3):
+            yield {'kind': 'iter', 'sub': 'T', 'sentinel': None, 'twin': True, 'p': [], 'e1': [], 'e2': [op],
+                   'src': {'fin': mixed[rot:] + mixed[:rot], 'tail': None}, 'k': 20, 'mode': 'take', 'srckind': 'gen', 'R': 1}
+
+
+# ---- several live streams -----------------------------------------------------------------------
+
+STATEFUL_OPS = [
+    {'op': 'unique'}, {'op': 'unique', 'f': 'mod3'}, {'op': 'chunked', 'size': 2}, {'op': 'chunked', 'size': 3, 'fill': {'v': None}},
+    {'op': 'windowed', 'size': 2}, {'op': 'windowed', 'size': 3}, {'op': 'slice', 'a': [1, 6, 2]}, {'op': 'limit', 'n': 3},
+    {'op': 'takewhile', 'f': 'lt3'}, {'op': 'dropwhile', 'f': 'lt3'}, {'op': 'split', 'sep': {'scalar': {'i': 2}}},
+    {'op': 'split', 'maxsplit': 1}, {'op': 'filter', 'f': 'mod2'}, {'op': 'map', 'f': 'inc'}, {'op': 'map', 'f': 'wrap'},
+    {'op': 'flatten'},
+]
+STREAM_SOURCES = [[1, 1, 2, 1, 3, 2, 4], [5, 5, 1, 6], [0, 1, 2, 3, 4, 5, 6, 7], [2, 2, 2], [3, 0, 3, 0, 1, 2], []]
+
+
+def interleavings(counts):
+    """all orders of counts[i] pulls of stream i"""
+    if not any(counts):
+        yield []
+        return
+    for i, c in enumerate(counts):
+        if c:
+            rest = list(counts)
+            rest[i] -= 1
+            for tail in interleavings(rest):
+                yield [i] + tail
+
+
+def schedule(order, nstreams, early_open):
+    """events for a pull order: a stream is opened right before its first pull, or (early_open) all at the start"""
+    evs, opened = [], set()
+    if early_open:
+        for i in range(nstreams):
+            evs.append(['open', i])
+            opened.add(i)
+    for i in order:
+        if i not in opened:
+            evs.append(['open', i])
+            opened.add(i)
+        evs.append(['next', i])
+    return evs
+
+
+def gen_streams_case(rng):
+    ty0 = 'int'
+    base = {'sub': 'T', 'sentinel': None, 'ops': []}
+    r = rng.random()
+    if r < 0.15:
+        base['sub'] = rng.choice(BASE_SUBS)
+    elif r < 0.25:
+        base['sentinel'] = {'v': jv(rng.choice([None, 0, 3]))}
+    ty = ty0
+    for _ in range(rng.choice([0, 1, 1, 2])):
+        if rng.random() < 0.7:
+            op = rng.choice(STATEFUL_OPS)
+            if op['op'] == 'flatten' and ty != 'seq':
+                op = {'op': 'unique'}
+            ty = 'seq' if op['op'] in ('chunked', 'windowed', 'split') or op.get('f') == 'wrap' else ty
+        else:
+            op, ty = gen_op(rng, 'int' if ty == 'any' else ty, rng.random() < 0.1)
+        base['ops'].append(op)
+    derived = []
+    for _ in range(rng.choice([0, 1, 1, 2])):
+        ops = []
+        for _ in range(rng.choice([1, 1, 2])):
+            if rng.random() < 0.5:
+                op = rng.choice(STATEFUL_OPS)
+                if op['op'] == 'flatten' and ty != 'seq':
+                    op = {'op': 'unique'}
+            else:
+                op = gen_op(rng, 'int' if ty == 'any' else ty, rng.random() < 0.1)[0]
+            ops.append(op)
+        derived.append({'from': rng.randint(0, len(derived)), 'ops': ops})
+    nspecs = 1 + len(derived)
+    streams = []
+    for _ in range(rng.choice([2, 2, 3, 4])):
+        src = gen_source(rng, ty0, rng.random() < 0.2) if rng.random() < 0.6 else \
+            {'fin': [jv(x) for x in rng.choice(STREAM_SOURCES)], 'tail': None}
+        if base['sentinel'] is not None and rng.random() < 0.5:
+            plant(rng, src, dec(base['sentinel']['v']))
+            if rng.random() < 0.4:
+                plant_twin(rng, src, dec(base['sentinel']['v']))
+        # most streams come from the SAME spec object
+        spec = 0 if rng.random() < 0.5 else rng.randrange(nspecs)
+        m = rng.random()
+        mode = 'take' if m < 0.8 else 'all' if m < 0.92 else gen_first_mode(rng)
+        streams.append({'spec': spec, 'src': src, 'mode': mode, 'srckind': gen_srckind(rng)})
+    order = []
+    for i, sj in enumerate(streams):
+        order += [i] * (rng.randint(0, 5) if sj['mode'] == 'take' else 1)
+    rng.shuffle(order)
+    evs, opened = [], set()
+    if rng.random() < 0.3:
+        for i, sj in enumerate(streams):
+            if sj['mode'] == 'take' and rng.random() < 0.7:
+                evs.append(['open', i])
+                opened.add(i)
+    for i in order:
+        if streams[i]['mode'] != 'take':
+            evs.append(['run', i])
+            continue
+        if i not in opened:
+            evs.append(['open', i])
+            opened.add(i)
+        evs.append(['next', i])
+    return {'kind': 'streams', 'base': base, 'derived': derived, 'streams': streams, 'events': evs}
+
+
+def streams_sweep(tier):
+    """every stateful stage x (two streams of the same spec object | of a spec and one derived from it |
+    of two specs derived from one) x ALL interleavings of a small pull schedule (streams opened lazily / up front)"""
+    counts = [(2, 2)] if tier == 'quick' else [(2, 2), (3, 3), (2, 2, 2), (1, 4)]
+    srcs = [{'fin': [jv(x) for x in xs], 'tail': None} for xs in STREAM_SOURCES[:3]]
+    n = 0
+    for op in STATEFUL_OPS:
+        if op['op'] == 'flatten':
+            continue
+        for rel in range(3):
+            if rel == 0:
+                base, derived, which = [op], [], [0, 0, 0]
+            elif rel == 1:
+                base, derived, which = [op], [{'from': 0, 'ops': [{'op': 'map', 'f': 'T'}]}], [0, 1, 0]
+            else:
+                base, derived, which = [], [{'from': 0, 'ops': [op]}, {'from': 1, 'ops': [{'op': 'limit', 'n': 20}]}], [1, 2, 1]
+            for cs in counts:
+                for order in interleavings(list(cs)):
+                    n += 1
+                    yield {'kind': 'streams', 'base': {'sub': 'T', 'sentinel': None, 'ops': base}, 'derived': derived,
+                           'streams': [{'spec': which[i], 'src': srcs[i], 'mode': 'take', 'srckind': SRCKINDS[(n + i) % 3]}
+                                       for i in range(len(cs))],
+                           'events': schedule(order, len(cs), n % 2 == 0)}
 
 
 def gen_first_mode(rng):
@@ -701,6 +1254,15 @@ def plant(rng, src, v):
         items.insert(rng.randint(0, min(len(items), 12)), jv(v))
 
 
+def plant_twin(rng, src, v):
+    """an item that is EQUAL to the stop value `v` without being it (the pipeline must go on), or equal to everything"""
+    twins = list(EXOTIC)
+    if type(v) is int:
+        twins += [_F(v)] * 3 + ([_B(bool(v))] * 3 if v in (0, 1) else [])
+    items = src['fin']
+    items.insert(rng.randint(0, min(len(items), 12)), rng.choice(twins))
+
+
 def gen_pipe(rng, ty0, src):
     """one pipeline of a reuse case; most of them end before their source does: at a sentinel
     planted in the source, at STOP from the subspec, or by a limiting stage"""
@@ -711,6 +1273,8 @@ def gen_pipe(rng, ty0, src):
         v = rng.choice([None, 0, 1, 2, 3, 4])
         pipe['sentinel'] = {'v': jv(v)}
         plant(rng, src, v)
+        if rng.random() < 0.35:
+            plant_twin(rng, src, v)
     if ty0 == 'int' and 0.4 <= r < 0.7:
         pipe['sub'] = rng.choice(BASE_SUBS)
     elif r >= 0.9:
@@ -828,6 +1392,10 @@ def param_sweep(tier):
 
 def exhaustive(tier):
     yield from param_sweep(tier)
+    yield from twin_sweep(tier)
+    yield from catalogue_sweep(tier)
+    yield from boltons_sweep(tier)
+    yield from streams_sweep(tier)
     if tier == 'quick':
         plan = [(0, EXH_SOURCES[:2], [0, 1, 2, 3, 4, 5, 6], DEFAULT_OPS),
                 (1, EXH_SOURCES[:4], [0, 1, 2, 3, 4, 5, 6], DEFAULT_OPS),
@@ -875,10 +1443,20 @@ def generate(rng, tier, scale, **focus):
     n = (1600 if tier == 'quick' else 30000) * scale
     maxlen = 3 if tier == 'quick' else 4
     for i in range(n):
-        if i % 8 == 7:
+        if focus.get('twins') and i % 2 == 0:
+            yield gen_twin_case(rng, maxlen)
+        elif focus.get('streams') and i % 2 == 1:
+            yield gen_streams_case(rng)
+        elif i % 8 == 7:
             yield gen_invoke_case(rng)
         elif i % 8 in (2, 5):
             yield gen_reuse_case(rng)
+        elif i % 16 == 3:
+            yield gen_twin_case(rng, maxlen)
+        elif i % 16 in (6, 11):
+            yield gen_streams_case(rng)
+        elif i % 16 == 14:
+            yield gen_boltons_case(rng)
         else:
             yield gen_iter_case(rng, maxlen, focus)
     if not focus:
@@ -898,7 +1476,8 @@ def corpus():
 
 def key(case):
     return {k: case.get(k) for k in ('kind', 'sub', 'sentinel', 'p', 'e1', 'e2', 'src', 'k', 'mode', 'target',
-                                     'srckind', 'R', 'pipes', 'form', 'steps')}
+                                     'srckind', 'R', 'pipes', 'form', 'steps', 'base', 'derived', 'streams',
+                                     'events', 'op')}
 
 
 def _raised(o):
@@ -908,6 +1487,14 @@ def _raised(o):
 
 def nontrivial(case, verdict):
     impl = case.get('impl') or {}
+    if case.get('kind') == 'streams':
+        live = {i for ev, i in case['events'] if ev == 'open'}
+        return len(live) >= 2 or any(_raised(o) or isinstance(o.get('end'), dict) or isinstance(o.get('open'), dict)
+                                     for o in impl.get('events', []))
+    if case.get('kind') == 'boltons':
+        return len(impl.get('events', [])) >= 2 or isinstance(impl.get('init'), dict)
+    if case.get('twin'):
+        return True
     if case.get('kind') == 'reuse':
         return len(case['steps']) >= 2 or any(p['ops'] for p in case['pipes']) or \
             any(_raised(o) for o in impl.get('steps', []))
@@ -923,13 +1510,33 @@ def focus(disagreements, facts_changed):
     if 'C17Facts' in (facts_changed or []):
         f['sentinel'] = True
         f['reuse'] = True
+        f['twins'] = True
+        f['streams'] = True
     for c, _ in disagreements or []:
+        if c.get('kind') == 'streams':
+            f['streams'] = True
+            continue
+        if c.get('twin'):
+            f['twins'] = True
         if c.get('kind') == 'reuse':
             continue
         if c.get('sentinel') is not None:
             f['sentinel'] = True
         if c.get('e1'):
             f['reuse'] = True
+    return f
+
+
+def focus_changed(changed_funcs):
+    """change-directed search (a function these cases execute differs from the baseline): random cases only —
+    the exhaustive sweeps ran already — and, when glom/streaming.py itself changed, half of them identity twins
+    and interleaved streams"""
+    f = {'directed': True}
+    if any(k.startswith('glom/streaming.py') for k in changed_funcs or []):
+        f['twins'] = True
+        f['streams'] = True
+        f['sentinel'] = True
+        f['reuse'] = True
     return f
 
 
@@ -963,9 +1570,51 @@ def shrink_reuse(case):
         yield dict(base, srckind='gen')
 
 
+def shrink_streams(case):
+    base = {k: v for k, v in case.items() if not k.startswith('impl')}
+    evs, streams = case['events'], case['streams']
+    for i in range(len(evs) - 1, -1, -1):
+        if evs[i][0] != 'open':
+            yield dict(base, events=evs[:i] + evs[i + 1:])
+    used = {i for _, i in evs}
+    for i in range(len(streams)):
+        if i in used:
+            yield dict(base, events=[e for e in evs if e[1] != i])
+    ops = case['base']['ops']
+    for i in range(len(ops)):
+        yield dict(base, base=dict(case['base'], ops=ops[:i] + ops[i + 1:]))
+    for di, d in enumerate(case['derived']):
+        for i in range(len(d['ops'])):
+            if len(d['ops']) > 1:
+                nd = dict(d, ops=d['ops'][:i] + d['ops'][i + 1:])
+                yield dict(base, derived=case['derived'][:di] + [nd] + case['derived'][di + 1:])
+    for si, sj in enumerate(streams):
+        items = sj['src']['fin']
+        for i in range(len(items)):
+            ns = dict(sj, src=dict(sj['src'], fin=items[:i] + items[i + 1:]))
+            yield dict(base, streams=streams[:si] + [ns] + streams[si + 1:])
+        if sj.get('srckind', 'gen') != 'gen':
+            yield dict(base, streams=streams[:si] + [dict(sj, srckind='gen')] + streams[si + 1:])
+        if sj['spec'] != 0:
+            yield dict(base, streams=streams[:si] + [dict(sj, spec=0)] + streams[si + 1:])
+    if case['base']['sub'] != 'T':
+        yield dict(base, base=dict(case['base'], sub='T'))
+
+
 def shrink(case):
+    if case.get('kind') == 'boltons':
+        base = {k: v for k, v in case.items() if not k.startswith('impl')}
+        items = case['src']['fin']
+        for i in range(len(items)):
+            yield dict(base, src=dict(case['src'], fin=items[:i] + items[i + 1:]))
+        if case['k'] > 0:
+            yield dict(base, k=case['k'] - 1)
+        return
     if case.get('kind') == 'reuse':
         yield from shrink_reuse(case)
+        return
+    if case.get('kind') == 'streams':
+        yield from shrink_streams(case)
         return
     base = {k: v for k, v in case.items() if not k.startswith('impl')}
     for part in ('e1', 'p', 'e2'):
